@@ -455,6 +455,32 @@ func Decorate(op *Op, schema *gast.Schema) []*Op {
 					}
 				}
 			}
+			// next to a field selected on the abstract type itself, a fragment on one
+			// implementer selecting ANOTHER field of it (its first field): the planner
+			// decides per implementer whether the interface-level field must be moved
+			// into fragments
+			if pd := schema.Types[nd.Parent]; pd != nil && (pd.Kind == gast.Interface || pd.Kind == gast.Union) && nd.Name != "__typename" {
+				for _, impl := range schema.GetPossibleTypes(pd) {
+					impl := impl
+					if len(impl.Fields) == 0 {
+						continue
+					}
+					emit(fmt.Sprintf("frag-on-%s-next-to-field", impl.Name), func(c *Op, s site) bool {
+						for _, y := range *s.list {
+							if y.Kind == 1 && y.Cond == impl.Name {
+								return false
+							}
+						}
+						first := impl.Fields[0]
+						if strings.HasPrefix(first.Name, "__") || len(first.Arguments) > 0 || isComposite(schema.Types[first.Type.Name()]) {
+							return false
+						}
+						fr := &Node{Kind: 1, Cond: impl.Name, Parent: nd.Parent, Sub: []*Node{{Kind: 0, Name: first.Name, Parent: impl.Name, Type: first.Type.Name()}}}
+						*s.list = append(*s.list, fr)
+						return true
+					}, i)
+				}
+			}
 			emit("named-fragment", func(c *Op, s site) bool {
 				x := (*s.list)[s.idx]
 				if x.Parent == "" {
